@@ -44,6 +44,16 @@ def build_masked(cfg):
                              link_objs=cfg.lib_without('ascon-trng-mixer.c'))
 
 
+def build_threads(cfg):
+    wraps = ['memcpy', 'memset', 'explicit_bzero', 'getrandom']
+    cflags = []
+    if cfg.backend == 'asm':
+        wraps.append('ascon_permute')
+        cflags.append('-DASIM_WRAP_PERMUTE=1')
+    return cfg.build_harness('threads', [os.path.join(W, 'threads.cpp'), os.path.join(S, 'simrng.c')], extra_cflags=cflags,
+                             ldflags=['-Wl,' + ','.join('--wrap=' + w for w in wraps), '-rdynamic', '-ldl'])
+
+
 RNG_SEAM = dict(extra_src=[os.path.join(S, 'simrng.c')], ldflags=['-Wl,--wrap=getrandom'])
 
 WORLDS = {
@@ -52,6 +62,7 @@ WORLDS = {
     'prng': dict(RNG_SEAM),
     'cli': dict(build=build_cli),
     'bytes': {},
+    'threads': dict(build=build_threads),
     'masked': dict(build=build_masked),
     'cppobj': dict(RNG_SEAM),
     'keystore': dict(cflags=['-DASIM_REPO="%s"' % B.REPO]),
@@ -309,7 +320,31 @@ def check_C17(tier, seed):
     return o.finish()
 
 
+def check_C16(tier, seed):
+    o = D.Outcome('C16', tier, seed)
+    o.components = dict(real=['every C translation unit of /repo/src compiled with clang -O1 and load/store/function-entry callbacks (trace flavour); '
+                              'C++ wrapper sources are compiled uninstrumented and are not exercised here'],
+                        stub=['thread scheduling: real pthreads released one at a time by a seeded scheduler (Bernoulli pre-emption at rate 1/10..1/5000 or d change points)',
+                              'memcpy/memset/explicit_bzero wrapped so that range accesses from library code reach the detector',
+                              'getrandom() (per-thread tapes, so results are schedule independent by construction of the harness)',
+                              'asm backend only: ascon_permute wrapped and modelled as read+write of the 40 state bytes'])
+    o.assumptions = ['the library contains no synchronisation, so any two accesses from different threads to the same byte with at least one write are a data race',
+                     'races are decided at the granularity of clang -O1 loads/stores of the C sources (a race is a source-level property), not of the shipped -O3 binary',
+                     'stack accesses are private to their thread; TLS blocks are outside the executable\'s static storage, so a legitimate __thread variable does not alarm']
+    n = 20000 if tier == 'quick' else 1000000
+    cfgs = [('c64', (4, 2, 4), n), ('asm', (4, 2, 4), n // 4)] if tier == 'quick' else \
+           [('c64', (4, 2, 4), n), ('asm', (4, 2, 4), n // 4), ('c32', (3, 3, 3), n // 4), ('dxor', (4, 4, 4), n // 8), ('gen', (2, 1, 2), n // 8)]
+    for be, sh, k in cfgs:
+        exe = world_exe('threads', be, sh, 'trace')
+        o.add(D.run_batch(exe, k, tier, seed, label='threads@%s-%d%d%d' % (be, *sh), crash_prop='C16'))
+    o.extra['distinct_states_measure'] = 'distinct switch-sequence hashes (hash over (scheduler step, thread switched to) of every context switch of a run)'
+    o.rule = ('one evaluation = one multi-threaded run under one seeded schedule; distinct+non-trivial when the plan digest is new, >= 3 operations ran and '
+              '(>= 1 pre-emption fired or >= 2 threads took part)')
+    return o.finish()
+
+
 CHECKS = {
+    'C16': check_C16,
     'C17': check_C17,
     'C06': check_C06,
     'C10': check_C10,
@@ -329,6 +364,9 @@ SETUP_BUILDS = [
     lambda: world_exe('bytes'),
     lambda: world_exe('bytes', 'asm', (4, 2, 4), 'nostl'),
     lambda: world_exe('keystore'),
+    lambda: world_exe('cppobj'),
+    lambda: world_exe('threads', 'c64', (4, 2, 4), 'trace'),
+    lambda: world_exe('threads', 'asm', (4, 2, 4), 'trace'),
     lambda: world_exe('masked'),
     lambda: world_exe('masked', 'c64', (3, 3, 3)),
     lambda: world_exe('masked', 'c32', (2, 1, 2)),
